@@ -89,6 +89,7 @@ impl InhibitConnectionPlugin {
 //@end
 // R11: `impl EditConnectionCostPlugin for InhibitConnectionPlugin` checked as inherent fns of the same bodies
 //@extract sudachi/src/plugin/connect_cost/inhibit_connection.rs :: impl EditConnectionCostPlugin for InhibitConnectionPlugin :: fn set_up
+//@  twin
 //@  rw R14 1 custom
 //@  | serde_json::from_value\(settings\.clone\(\)\)\?
 //@  > settings_from_value(settings)?
@@ -111,6 +112,7 @@ impl InhibitConnectionPlugin {
             decreases inhibit_pairs@.len() - __ip
 //@end
 //@extract sudachi/src/plugin/connect_cost/inhibit_connection.rs :: impl EditConnectionCostPlugin for InhibitConnectionPlugin :: fn edit
+//@  twin
 //@  rw R6v 1 custom
 //@  | for \(left, right\) in &self\.inhibit_pairs \{
 //@  > let mut __ip: usize = 0; while __ip < self.inhibit_pairs.len() { let (left, right) = (&self.inhibit_pairs[__ip].0, &self.inhibit_pairs[__ip].1); __ip += 1;
